@@ -40,6 +40,8 @@ CONSTANTS NW,          \* number of writers
           MaxHsFail,   \* bound: of which handshake-read failures
           MaxReads,    \* bound: Read calls of the reader
           AllowClose,  \* Close is part of the environment
+          LateOk,      \* TRUE = an underlying Write that was in flight when its connection was replaced does not fail by itself: the
+                       \*        script decides (it may return nil late - the bytes had been accepted before the connection broke)
           FixWL,       \* FALSE = as coded; TRUE = write loop cancels the context on budget exhaustion
           GenCanon     \* script generation: internal steps eagerly, in a canonical order
 
@@ -279,7 +281,7 @@ Apply(st, op) ==
 InternalOps(st) ==
     (IF st.wl.pc = "idle" /\ st.q # <<>> /\ ~st.closed THEN {[a |-> "wl_take"]} ELSE {})
     \cup (IF st.wl.pc = "lock" /\ st.mu = "free" THEN {[a |-> "wl_lock"]} ELSE {})
-    \cup (IF st.wl.pc = "write" /\ st.wl.inc \in st.dead THEN {[a |-> "wl_autofail"]} ELSE {})
+    \cup (IF st.wl.pc = "write" /\ st.wl.inc \in st.dead /\ ~LateOk THEN {[a |-> "wl_autofail"]} ELSE {})
     \cup (IF st.wl.pc = "wantmu" /\ st.mu = "free" THEN {[a |-> "wl_mu"]} ELSE {})
     \cup (IF st.rl.pc = "lock" /\ st.mu = "free" THEN {[a |-> "rl_lock"]} ELSE {})
     \cup (IF st.rl.pc = "read" /\ st.rl.inc \in st.dead THEN {[a |-> "rl_autofail"]} ELSE {})
@@ -305,7 +307,7 @@ CallOps(st) ==
     \cup (IF AllowClose /\ st.closeSt = "no" /\ (~GenCanon \/ st.mu = "free") THEN {[a |-> "close"]} ELSE {})
 
 GateOps(st) ==
-    (IF st.wl.pc = "write" /\ st.wl.inc \notin st.dead
+    (IF st.wl.pc = "write" /\ (st.wl.inc \notin st.dead \/ LateOk)
      THEN {[a |-> "uw", res |-> "ok"]} \cup (IF st.cnt.uwf < MaxUWFail THEN {[a |-> "uw", res |-> "fail"]} ELSE {})
      ELSE {})
     \cup (IF st.rl.pc = "read" /\ st.rl.inc \notin st.dead /\ st.cnt.ur < MaxUR
